@@ -180,6 +180,9 @@ pub enum FaultKind {
     ExtraByte,
     ExtraChunk,
     Endless,
+    /// over-long chunk, after which the (still running) entity stream goes on with chunks
+    /// that would have fitted into what was still owed before the offending one
+    LongThenMore,
 }
 
 /// Scripts with exactly one fault, for a range of `n >= 1` bytes; `dev` benign deviations may
@@ -231,7 +234,24 @@ pub fn fault_scripts(n: u64, kmax: usize, dev: usize, max_events: usize) -> Vec<
                 if let Ev::Data(d) = x[p] {
                     if let Some(d1) = d.checked_add(1) {
                         x[p] = Ev::Data(d1);
-                        out.push((FaultKind::ExtraByte, x, Tail::Fused));
+                        out.push((FaultKind::ExtraByte, x.clone(), Tail::Fused));
+                        // the stream does not stop there: small chunks follow (the crate, not
+                        // the entity, ended the response -- they must never be passed on)
+                        if x.len() + 1 <= max_events + 1 {
+                            let mut y = x.clone();
+                            y.push(Ev::Data(1));
+                            out.push((FaultKind::LongThenMore, y.clone(), Tail::Fused));
+                            out.push((FaultKind::LongThenMore, y.clone(), Tail::Repeat));
+                            let mut z = x.clone();
+                            z.push(Ev::Data(d1));
+                            z.push(Ev::Data(1));
+                            out.push((FaultKind::LongThenMore, z, Tail::Fused));
+                            if d > 1 {
+                                let mut w = x.clone();
+                                w.push(Ev::Data(d));
+                                out.push((FaultKind::LongThenMore, w, Tail::Fused));
+                            }
+                        }
                     }
                 }
             }
